@@ -18,6 +18,7 @@ from __future__ import annotations
 import copy
 import decimal
 import enum
+import inspect
 import json
 import os
 import time
@@ -236,6 +237,7 @@ class Gen:
         self.t = tab
         self.rng = rng
         self.max_depth = max_depth
+        self.extra_raw = False    # raw elements outside `_props` were generated (custom writer: outside the model)
         self.full = full          # every optional member present, every list non-empty (documents that exercise the order)
         self.req = xsd_requirements(tab)
         self.stats = {'present': 0, 'absent_optional': 0, 'xsi': 0, 'lists': 0}
@@ -303,10 +305,16 @@ class Gen:
             # trailing-zero exponents, up to 18 significant digits (the documented limit of the converter)
             pool = ['0', '1', '-1.5', '0.001', '123456.789', '100', '-0.25', '3.14159', '1000000',
                     '0.0000001', '1E-7', '2.5E-9', '-0.000000000123', '1.23E-1', '0E-15', '1E+3', '-4.2E+5', '12E+15',
-                    '123456789012345678', '0.000000123456789', '99999999.99999999', '-1E-12']
+                    '123456789012345678', '0.000000123456789', '99999999.99999999', '-1E-12',
+                    # integer part ending in 0 with explicit fraction zeros / trailing zeros on both sides of the point
+                    '120.0', '10.0', '1000.000', '-50.00', '100.10', '0.0', '20', '-700', '10.010', '3000.0500']
             if r.random() < 0.25:
                 digits = ''.join(r.choice('0123456789') for _ in range(r.randint(1, 12))).lstrip('0') or '7'
                 return decimal.Decimal(f'{r.choice(["", "-"])}{digits}E{r.randint(-17, 6 if len(digits) < 10 else 0)}')
+            if r.random() < 0.2:
+                whole = str(r.randint(1, 999)) + '0' * r.randint(1, 4)
+                frac = r.choice(['0', '00', '000', '50', '0500', '10'])
+                return decimal.Decimal(f'{r.choice(["", "-"])}{whole}.{frac}')
             return decimal.Decimal(r.choice(pool))
         if issubclass(c, dc.TimestampConverter):
             return r.choice([0, 1, 1700000000123, r.randint(0, 2 ** 40)]) / 1000
@@ -434,6 +442,16 @@ class Gen:
                 setattr(obj, name, v)
             except Exception as ex:  # noqa: BLE001
                 raise GenError(f'{self.t.keys[ci]}.{name} rejects generated value {v!r}: {ex}') from ex
+        # raw lxml elements a class keeps outside `_props` (constructor parameter annotated with LxmlElement, stored as a list)
+        try:
+            params = inspect.signature(cls.__init__).parameters
+        except (TypeError, ValueError):
+            params = {}
+        for attr, val in list(vars(obj).items()):
+            if not attr.startswith('_') and isinstance(val, list) and not val and attr in params \
+                    and 'LxmlElement' in str(params[attr].annotation) and r.random() < 0.6:
+                val.extend(self.element() for _ in range(r.randint(1, 2)))
+                self.extra_raw = True
         return obj
 
 
@@ -1203,6 +1221,25 @@ def oracle(ctx, tab: Table, obj, case):
         return True
     validate_oracle(ctx, obj, node, case)
     ok = True
+    # writing is an observation: a second write of the same object gives the same document, leaves the document written
+    # before as it is (lxml moves an element that already has a parent) and does not change the value
+    x_first = xml_canon(node)
+    try:
+        node_b = serialize(obj)
+        if xml_canon(node_b) != x_first:
+            ctx.fail(f'write-twice-differs:{key}', f'{key}: writing the same object twice gives two different documents '
+                     f'({first_diff(x_first, xml_canon(node_b))[0]})', case)
+            ok = False
+        if xml_canon(node) != x_first:
+            ctx.fail(f'write-changes-earlier-document:{key}', f'{key}: writing the object again changed the document that was written before '
+                     f'({first_diff(x_first, xml_canon(node))[0]})', case)
+            return False
+        if canon(obj) != want:
+            ctx.fail(f'write-changes-value:{key}', f'{key}: a second write changed the value of the object', case)
+            ok = False
+    except Exception as ex:  # noqa: BLE001
+        ctx.fail(f'write-twice-raises:{key}:{_exc_sig(ex)}', f'{key}: the second write of the same object raises {type(ex).__name__}', case)
+        return False
     text = etree.tostring(node)
     for how, n in (('memory', node), ('reparsed', etree.fromstring(text))):
         try:
@@ -1226,12 +1263,17 @@ def oracle(ctx, tab: Table, obj, case):
                      f'read {json.dumps(w, default=str)[:120]}', {**case, 'xml': text.decode()})
             ok = False
             break
+        x_source = xml_canon(n)
         try:
             again = serialize(back)
         except Exception as ex:  # noqa: BLE001
             ctx.fail(f'rewrite-raises:{key}:{_exc_sig(ex)}', f'{key}: writing the value that was read raises {type(ex).__name__}', case)
             return False
-        if xml_canon(again) != xml_canon(node):
+        if xml_canon(n) != x_source:
+            ctx.fail(f'write-changes-source-document:{key}', f'{key}: writing the value that was read from a document changed that document '
+                     f'({how}; {first_diff(x_source, xml_canon(n))[0]})', {**case, 'xml': text.decode()})
+            return False
+        if xml_canon(again) != x_first:
             ctx.fail(f'rewrite-differs:{key}', f'{key}: as_etree_node(from_node(x)) differs from x ({how})', {**case, 'xml': text.decode()})
             ok = False
             break
@@ -1402,7 +1444,7 @@ def run(ctx):
         ok = oracle(ctx, tab, obj, case)
         ctx.case({'class': tab.keys[ci], 'value': canon(obj)}, nontrivial=g.stats['present'] >= 2 and g.stats['absent_optional'] >= 1,
                  sample={'class': tab.keys[ci], 'xml': etree.tostring(serialize(obj)).decode()[:400]} if (ok and ci % 60 == 0 and k == 0) else None)
-        if tab.keys[ci] in NO_MODEL:
+        if tab.keys[ci] in NO_MODEL or g.extra_raw:
             continue
         # ---- correspondence: model writeCls / readCls against as_etree_node / from_node
         tag = clark(qname_for(type(obj)))
@@ -1470,7 +1512,7 @@ _BAD_LEXICALS = [' 5 ', 'abc', '', '+1', '1.0', 'TRUE', 'true', '-3', '٣', 'P1D
 def extra_cases(ctx, tab: Table, enc: Enc, ops):
     rng = ctx.subrng('extra')
     for ci, cls in enumerate(tab.clist):
-        if tab.keys[ci] in NO_MODEL:
+        if tab.keys[ci] in NO_MODEL or g.extra_raw:
             continue
         pl, el = tab.props[ci], tab.entries[ci]['props']
         # (1) optional members with a class-level default, absent in the XML: the read value is a copy of the default
